@@ -185,7 +185,7 @@ class Ctx:
             cmd = [binary] + args + ["--out", out, "--crumb", crumb, "--deadline", str(int(deadline)), "--tmp", tmp]
             if resume is not None:
                 cmd += ["--resume", resume]
-            p = subprocess.Popen(cmd, stdout=subprocess.DEVNULL, stderr=open(err, "w"), env=e)
+            p = subprocess.Popen(cmd, stdin=subprocess.DEVNULL, stdout=subprocess.DEVNULL, stderr=open(err, "w"), env=e)
             procs[i] = (p, gen, out, crumb, err, time.time())
 
         restarts = 0
